@@ -121,8 +121,75 @@ def grid_cases(seed, thorough):
     return out
 
 
+def rounding_oracle(res):
+    """round / floor / ceil / abs are not in the Coq model: a Python oracle on both backends.  Integers with negative
+    `decimals` (negative values, nested integer expressions, values beyond 2**53 excluded), floats with 0 / 1 decimals;
+    ties (which the documentation leaves to the backend) are avoided by construction; results are compared as numbers."""
+    import math
+    import warnings
+    import polars as pl
+    import sqlalchemy as sqa
+    import pydiverse.transform as pdt
+    from pydiverse.transform import extended as X
+    I = [None, -1251, -160, -140, -101, -99, -1, 0, 1, 49, 51, 149, 151, 160, 1249, 99999, -99951]
+    F = [None, -1.6, -1.4, -0.6, 0.4, 0.6, 2.3, 1234.56, -1234.56, 0.26, -0.26, 7.0, -7.0, 1e6 + 0.3, -0.04, 99.96, 12.34]
+    df = pl.DataFrame({"k": list(range(len(I))), "x": I, "f": F}, schema={"k": pl.Int64, "x": pl.Int64, "f": pl.Float64})
+    eng = sqa.create_engine("sqlite://")
+    df.write_database("tt", eng)
+
+    def tie(v, d):        # v * 10**d ends in .5 exactly
+        y = abs(v) * 10 ** d
+        return abs(y - math.floor(y) - 0.5) < 1e-9
+    ex = {"r2": [None if v is None else float(round(v, -2)) for v in I],
+          "r1": [None if v is None else float(round(v, -1)) for v in I],
+          "r0": [None if v is None else float(v) for v in I],
+          "e2": [None if v is None else float(round(3 * v + 7, -2)) for v in I],
+          "n1": [None if v is None else float(round(-v, -1)) for v in I],
+          "f0": [None if v is None else float(round(v)) for v in F],
+          "f1": [None if v is None else round(v, 1) for v in F],
+          "fl": [None if v is None else float(math.floor(v)) for v in F],
+          "ce": [None if v is None else float(math.ceil(v)) for v in F],
+          "ab": [None if v is None else float(abs(v)) for v in I],
+          "fa": [None if v is None else abs(v) for v in F]}
+    ties = {"r2": [v is not None and tie(v, -2) for v in I], "r1": [v is not None and tie(v, -1) for v in I],
+            "e2": [v is not None and tie(3 * v + 7, -2) for v in I], "n1": [v is not None and tie(v, -1) for v in I],
+            "f0": [v is not None and tie(v, 0) for v in F], "f1": [v is not None and tie(v, 1) for v in F]}
+    n = 0
+    for name, t in (("polars", pdt.Table(df, name="tt")), ("sqlite", pdt.Table("tt", X.SqlAlchemy(eng)))):
+        try:
+            with warnings.catch_warnings():
+                warnings.simplefilter("ignore")
+                r = (t >> X.mutate(r2=t.x.round(-2), r1=t.x.round(-1), r0=t.x.round(0), e2=(t.x * 3 + 7).round(-2), n1=(-t.x).round(-1),
+                                   f0=t.f.round(0), f1=t.f.round(1), fl=t.f.floor(), ce=t.f.ceil(), ab=t.x.abs(), fa=t.f.abs())
+                     >> X.arrange(t.k) >> X.export(X.Polars())).to_dict(as_series=False)
+        except Exception as e:  # noqa: BLE001
+            res.violations.append({"what": f"{name}: rounding grid fails with {type(e).__name__}: {str(e)[:160]}", "found_input": True,
+                                   "payload": {"backend": name, "oracle": "rounding"}})
+            continue
+        for c, want in ex.items():
+            for i, (got, w) in enumerate(zip(r[c], want)):
+                if ties.get(c, [False] * len(want))[i]:
+                    continue
+                n += 1
+                ok = (got is None and w is None) or (got is not None and w is not None and abs(float(got) - w) <= 1e-9 * max(1.0, abs(w)))
+                if not ok:
+                    src = (I if c in ("r2", "r1", "r0", "e2", "n1", "ab") else F)[i]
+                    res.violations.append({"what": f"{name}: {c} of {src!r} is {got!r}, expected {w!r} "
+                                                   f"(r2 / r1 / r0: x.round(-2 / -1 / 0); e2: (3*x+7).round(-2); n1: (-x).round(-1); "
+                                                   f"f0 / f1: f.round(0 / 1); fl / ce: floor / ceil; ab / fa: abs)",
+                                           "found_input": True, "payload": {"backend": name, "column": c, "got": r[c], "want": want}})
+                    break
+            else:
+                continue
+            break
+    res.coverage["rounding_oracle"] = {"values_compared": n}
+    res.traces += n
+
+
 def run(ctx, res):
     cases = [] if ctx.replay else grid_cases(ctx.seed, ctx.tier == "thorough")
+    if not ctx.replay:
+        rounding_oracle(res)
     pipeprop.run(ctx, res, "C03", {}, n_quick=0, n_thorough=0, extra_cases=cases, probe_ids=("F27", "F38"),
                  label="operand grid")
     ncells = sum(len(c["tables"]["t"]["rows"]) * len(c["pipe"]["steps"][0][1]) for c in cases)
